@@ -1403,7 +1403,7 @@ def run(chk):
     ]
     # TEMPORARY (drop after merging build/kf-C06.json into known_findings.json): proposed entries not yet listed
     kfp = os.path.join(vlib.VERIF, "build", "kf-C06.json")
-    if os.path.exists(kfp):
+    if os.path.exists(kfp) and os.environ.get("VERIF_KF_DEV"):  # development only: proposals not yet merged into known_findings.json
         have = {f["id"] for f in chk.findings}
         chk.findings = list(chk.findings) + [f for f in json.load(open(kfp)) if f["id"] not in have]
     res = chk.proof_stage("C06", allow_axioms=(), rs2v_units=["CoreNum"])
